@@ -69,6 +69,9 @@ void check_C04(Src &s, Ctx &ctx) {
     // weights x values is asserted for every grid whose values were supplied by a load (the statement has no completeness caveat);
     // after setHierarchicalCoefficients on a local polynomial grid only if the point set is parent-complete
     bool id1 = !(g.isLocalPolynomial() && coeff_overwritten && !lp_complete);
+    // known finding C04-incomplete-hierarchy-incremental-surpluses: on a point set that is not parent-complete the surpluses updated incrementally by
+    // loadConstructedPoints differ from the ones the batch algorithm (and the weights) imply; while it is listed, the weights identities are not asserted for that class
+    if (g.isLocalPolynomial() && !lp_complete && st.n_constr_loads > 0 && ctx.excl("C04-incomplete-hierarchy-incremental-surpluses")) id1 = false;
     std::vector<double> w;   // reused across x
     for (int r = 0; r < nx && id1; r++) {
         std::vector<double> xr(X.begin() + (long)r * d, X.begin() + (long)(r + 1) * d);
